@@ -13,11 +13,14 @@ from vf import symcbor, idealcose
 from vf.bpenv import BpWorld
 
 MANIFEST = {
-    'text': 'Bounded symbolic model checking of BIB apply/verify under ideal cryptography: target block data, '
-            'lifetime, creation time are symbolic; the alteration is a symbolic change (any other value) of one '
-            'item: target data octet, primary-block field, target block flags / number, security source, the COSE '
-            'protected header, the tag, an unrelated block outside the scope, or the receiver key; message kind COSE_Mac0.  Obligation: delivered <=> the altered item is outside the declared scope '
-            '(and the key is right); otherwise the bundle is deleted with a security reason.',
+    'text': 'Bounded symbolic model checking of BIB apply/verify under ideal cryptography beneath the real pycose: '
+            'target block data, lifetime, creation time are symbolic; the to-be-MACed octets are compared with an '
+            'independent construction of the external AAD; the alteration is a symbolic change (any other value) of '
+            'one item: target data octet, primary-block field, target block flags, security source, the COSE '
+            'protected header, the tag, an unrelated block outside the scope, the BIB block flags, the receiver key, '
+            'or the original content moved into the COSE payload slot with the target rewritten; one or two '
+            'targets per BIB; message kind COSE_Mac0.  Obligation: delivered <=> the altered item is outside the '
+            'declared scope (and the key is right); otherwise the bundle is deleted with a security reason.',
     'note': 'Trusted: engine, vf.symcbor, the ideal-primitive layer under pycose (HMAC / AES-KW strength assumed), '
             'independent reader/writer used to alter the wire, z3.  COSE_Sign1 / x5chain key selection is outside '
             'the claim (certificate path validation cannot run here).',
